@@ -17,7 +17,7 @@ echo "== my checks with change applied to /repo"
 cd /repo && git apply $wt/mutant.diff || exit 1
 for p in "$@"; do
   out=$(/verif/bin/vcheck check $p quick 2>&1); ec=$?
-  echo "[$p exit=$ec]"; echo "$out" | grep "fingerprint=" | sed 's/.*fingerprint=\([^ ]*\) runs=\([^ ]*\).*/   \1 runs=\2/' | head -6
+  echo "[$p exit=$ec]"; echo "$out" | grep "^  fingerprint=" | sed 's/.*fingerprint=\([^ ]*\) runs=\([^ ]*\).*/   \1 runs=\2/' | head -6
 done
 git checkout -- .
 git status --short | head -2
